@@ -879,8 +879,5 @@ func isByteSlice(t types.Type) bool {
 
 // byteToInt converts a byte-sorted term to Int (strings carry Int content).
 func (c *FnCtx) byteToInt(s string) string {
-	if c.mode == ModeBV {
-		return fmt.Sprintf("(bv2nat %s)", s)
-	}
-	return s
+	return s // strat has the byte sort of the mode
 }
